@@ -59,6 +59,8 @@ def def_lines(d, ind, style="normal"):
         if d["vis"] != "public":
             inner = [ind + "  " + d["vis"]] + inner      # the section opened inside the block ends with the block
         return [ind + "class << self"] + inner + [ind + "end"]
+    if d["how"] == "attr":
+        return [ind + "attr_accessor :%s" % name, ind + "def fill_%s" % name, ind + "  @%s = %s" % (name, body), ind + "end"]
     head = "def self.%s" % name if d["static"] else "def %s" % name
     if style == "endless":
         return [ind + head + " = " + body]
@@ -202,5 +204,8 @@ def agrees(expected, obs):
     if k == "ambiguous":
         return True
     if k == "ok":
+        if expected.get("attr"):
+            # an attribute reader: the instance variable's type, possibly with NilClass (never assigned before the read)
+            return obs[0] == "ok" and obs[1] in (expected["ret"], "Union<%s NilClass>" % expected["ret"], "Union<NilClass %s>" % expected["ret"])
         return obs[0] == "ok" and obs[1] == expected["ret"]
     return obs[0] == "error"
